@@ -154,7 +154,7 @@ impl Property for C19 {
             let ttl_h = [10u32, 60, 120][rng.below(3) as usize];
             let ir = instance_recs(&ty, "svc1", "hostp.local.", 8080, &["192.168.1.50"], &[], vec![0], ttl_o, ttl_h);
             let mut p = peer_dual(1, 50, 0);
-            p.responder = Some(ResponderCfg { records: ir.all(), delay_ms: 20, honor_known_answers: true, additionals: true, active: true, max_answers: None, skip_first: 0 });
+            p.responder = Some(ResponderCfg { records: ir.all(), delay_ms: 20, honor_known_answers: true, additionals: true, active: true, max_answers: None, skip_first: 0, conflict_probes: 0 });
             s.peers.push(p);
             s.horizon_ms = s.horizon_ms.min(3 * 3600_000);
         }
